@@ -1,5 +1,8 @@
 import Asn1Model.Uper
 import Asn1Model.Oer
+import Asn1Model.Der
+import Asn1Proofs.Lemmas.PrefixOerTypes
+import Asn1Proofs.Lemmas.PrefixDerTop
 /-
   C16 — a truncated encoding is a decode error.  Property theorems.
   The primitives of the models carry the code's own remaining-data checks; the theorems below state that
@@ -57,4 +60,122 @@ theorem oer_sequence_empty (a : String) (t : Ty) :
     Oer.dec (.sequence (.cons a .optional t .nil) false .nil) [] = .error .decodeError := by
   simp [Oer.dec, Oer.optionalCount, Oer.readBytes, Oer.splitAux, bind, Except.bind]
 
+/-! ### every strict byte prefix of a valid encoding is a decode error -/
+
+/-- bit-level form: a strict prefix of the bits of an encoding (followed by nothing) is rejected with
+`decodeError`, whatever fuel (larger than the prefix) the decoder gets -/
+theorem uper_truncated_bits (t : Ty) (v : Val) (bits q x : Bits) (f' : Nat)
+    (hwf : t.wf = true) (hd : t.defaultsOk = true) (hns : t.nsOk = true) (ht : hasType t v = true)
+    (hf : Uper.fragFree t v = true) (he : Uper.enc t v = .ok bits)
+    (hq : bits = q ++ x) (hx : x ≠ []) (hfuel : q.length < f') :
+    Uper.dec t f' q = .error .decodeError := by
+  have hrt := Uper.roundtrip_partial t v bits [] (bits.length + 2) hwf hd hns ht hf he (by simp)
+  rw [List.append_nil, hq] at hrt
+  rcases Uper.dec_prefix t _ f' q x _ _ hfuel hrt with ⟨r', _, h2⟩ | h1
+  · have := congrArg List.length h2
+    simp only [List.length_append, List.length_nil] at this
+    have : x.length = 0 := by omega
+    exact absurd (List.eq_nil_of_length_eq_zero this) hx
+  · exact h1
+
+/-- **C16, UPER.**  Every strict byte prefix of the encoding of a well-typed value is rejected by the
+decoder with the library's decode error: it is not decoded to a value and no foreign exception
+escapes.  Same hypotheses as the round-trip theorem `C01.uper_roundtrip_partial`. -/
+theorem uper_truncated (t : Ty) (v : Val) (bytes : Bytes) (k : Nat)
+    (hwf : t.wf = true) (hd : t.defaultsOk = true) (hns : t.nsOk = true) (ht : hasType t v = true)
+    (hf : Uper.fragFree t v = true) (he : Uper.encode t v = .ok bytes) (hk : k < bytes.length) :
+    Uper.decode t (bytes.take k) = .error .decodeError := by
+  unfold Uper.encode at he
+  cases hb : Uper.enc t v with
+  | error e => rw [hb] at he; cases he
+  | ok bits =>
+    rw [hb] at he
+    have hbytes : bytes = packBits bits := by cases he; rfl
+    subst hbytes
+    obtain ⟨pad, hpad⟩ := bytesToBits_bitsToBytes (bits.length + 1) bits (Nat.le_refl _)
+    change bytesToBits (packBits bits) = bits ++ pad at hpad
+    have hlen : (packBits bits).length = (bits.length + 7) / 8 := packBits_length bits
+    have hpadlen : pad.length < 8 := by
+      have := congrArg List.length hpad
+      simp only [bytesToBits_length, List.length_append, hlen] at this
+      omega
+    have hsplit : bytesToBits ((packBits bits).take k) ++ bytesToBits ((packBits bits).drop k)
+        = bits ++ pad := by
+      rw [← bytesToBits_append, List.take_append_drop, hpad]
+    have hrt := Uper.roundtrip_partial t v bits pad (bits.length + pad.length + 2) hwf hd hns ht hf hb
+      (Nat.le_refl _)
+    rw [← hsplit] at hrt
+    have hq : (bytesToBits ((packBits bits).take k)).length < 8 * ((packBits bits).take k).length + 2 := by
+      rw [bytesToBits_length]; omega
+    unfold Uper.decode
+    rcases Uper.dec_prefix t _ _ _ _ _ _ hq hrt with ⟨r', _, h2⟩ | h1
+    · exfalso
+      have := congrArg List.length h2
+      simp only [List.length_append, bytesToBits_length, List.length_drop] at this
+      omega
+    · rw [h1]; rfl
+
+/-- **C16, OER.**  Every strict byte prefix of the encoding of a well-typed value is rejected by the
+decoder with the library's decode error.  Same hypotheses as `C01.oer_roundtrip_partial`. -/
+theorem oer_truncated (t : Ty) (v : Val) (bytes : Bytes) (k : Nat)
+    (hwf : t.wf = true) (hwf' : Oer.oerWf t = true) (hd : t.defaultsOk = true) (ht : hasType t v = true)
+    (hu : Oer.utf8Ok t v = true) (hns : Oer.noSwallow t v = true) (he : Oer.encode t v = .ok bytes)
+    (hk : k < bytes.length) :
+    Oer.decode t (bytes.take k) = .error .decodeError := by
+  have hrt := Oer.roundtrip_partial t v bytes [] hwf hwf' hd ht hu hns he
+  rw [List.append_nil] at hrt
+  conv at hrt => rw [← List.take_append_drop k bytes]
+  unfold Oer.decode
+  rcases Oer.dec_prefix t _ _ _ _ hrt with ⟨r', _, h2⟩ | h1
+  · exfalso
+    have := congrArg List.length h2
+    simp only [List.length_append, List.length_nil, List.length_drop] at this
+    omega
+  · rw [h1]; rfl
+
+/-- the decoders are prefix deterministic for *every* type, also outside the round-trip hypotheses:
+a prefix of an accepted input is either accepted with the same value or rejected with `decodeError` -/
+theorem uper_prefix_deterministic (t : Ty) (f f' : Nat) (q x : Bits) (a : Val) (r : Bits)
+    (hf : q.length < f') (h : Uper.dec t f (q ++ x) = .ok (a, r)) :
+    (∃ r', Uper.dec t f' q = .ok (a, r') ∧ r = r' ++ x) ∨ Uper.dec t f' q = .error .decodeError :=
+  Uper.dec_prefix t f f' q x a r hf h
+
+theorem oer_prefix_deterministic (t : Ty) (q x : Bytes) (a : Val) (r : Bytes)
+    (h : Oer.dec t (q ++ x) = .ok (a, r)) :
+    (∃ r', Oer.dec t q = .ok (a, r') ∧ r = r' ++ x) ∨ Oer.dec t q = .error .decodeError :=
+  Oer.dec_prefix t q x a r h
+
+/-- **C16, DER.**  Every strict byte prefix of a DER encoding is rejected by the decoder with the
+library's decode error.  No side condition at all: any type of the universe, any value the encoder
+(type checker included) accepts.  (Every DER decoder matches the tag and then `decode_length` checks
+that the announced contents are present before anything else is looked at.) -/
+theorem der_truncated (t : Ty) (v : Val) (bytes : Bytes) (k : Nat)
+    (he : Der.encode t v = .ok bytes) (hk : k < bytes.length) :
+    Der.decode t (bytes.take k) = .error .decodeError :=
+  Der.decode_short t v bytes k he hk
+
+/-- non-vacuity of the three theorems on one type with OPTIONAL / DEFAULT members, extension
+additions, an extensible CHOICE and a SEQUENCE OF: all hypotheses hold and the encodings are not empty -/
+example :
+    let t : Ty := .sequenceOf (.sequence
+        (.cons "a" .optional (.integer ⟨some 0, some 300, true⟩)
+        (.cons "b" (.default (.bool true)) .boolean .nil)) true
+        (.cons "c" .optional (.choice (.cons "x" .null (.cons "y" (.octetString ⟨0, none, false⟩) .nil)) true
+            (.cons "z" (.charString .ia5 ⟨1, some 4, false⟩) .nil)) .nil)) ⟨0, some 3, true⟩
+    let v : Val := .list [.record [("a", .int 70000), ("c", .choice "z" (.str [65, 66]))], .record [("b", .bool false)]]
+    t.wf = true ∧ Oer.oerWf t = true ∧ t.defaultsOk = true ∧ t.nsOk = true ∧ hasType t v = true ∧
+      Uper.fragFree t v = true ∧ Oer.utf8Ok t v = true ∧ Oer.noSwallow t v = true ∧
+      ((Uper.encode t v).toOption.map List.length) = some 12 ∧
+      ((Oer.encode t v).toOption.map List.length) = some 18 ∧
+      ((Der.encode t v).toOption.map List.length) = some 20 := by
+  refine ⟨by decide +kernel, by decide +kernel, by decide +kernel, by decide +kernel, by decide +kernel,
+    by decide +kernel, by decide +kernel, by decide +kernel, by decide +kernel, by decide +kernel,
+    by decide +kernel⟩
+
 end Asn1.C16
+
+#print axioms Asn1.C16.der_truncated
+#print axioms Asn1.C16.uper_truncated
+#print axioms Asn1.C16.oer_truncated
+#print axioms Asn1.C16.uper_prefix_deterministic
+#print axioms Asn1.C16.oer_prefix_deterministic
